@@ -294,6 +294,93 @@ def impl_integration(ctx, dump, E):
     ctx.obligation("corr:length/area/volume/centre/Integrate_e exact on straight-sided elements", nbad == 0, "%d of %d cases differ" % (nbad, len(cases)))
 
 
+REPLAY_MESH = r"""
+import json, os, subprocess, sys
+req = json.loads(%(req)r)
+exp = json.loads(%(exp)r)
+p = subprocess.run([sys.executable, %(script)r], input=json.dumps(req), capture_output=True, text=True, env=os.environ)
+if p.returncode != 0:
+    print(p.stderr[-800:]); sys.exit(1)
+r = json.loads(p.stdout)[0]
+print("implementation:", r)
+print("exact         :", exp)
+bad = "raises" in r
+if not bad:
+    tol = 1e-10 * max(1.0, exp["scale"])
+    bad |= abs(r["measure"] - exp["measure"]) > tol
+    bad |= any(abs(a - b) > tol for a, b in zip(r["center"], exp["center"]))
+sys.exit(1 if bad else 0)
+"""
+
+MIXED = [("SEG2", "SEG3"), ("SEG4", "SEG2", "SEG3"), ("TRI3", "QUAD4"), ("QUAD4", "TRI3"), ("TRI6", "QUAD8"), ("QUAD9", "TRI10", "TRI3"),
+         ("SEG2", "TRI3", "QUAD4"), ("QUAD8", "SEG3", "TRI6"), ("TETRA4", "HEXA8"), ("PRISM6", "HEXA8", "TETRA4"), ("HEXA20", "TETRA10"),
+         ("PRISM15", "HEXA20"), ("TRI3", "TETRA4", "PRISM6"), ("TRI3",), ("HEXA8",), ("SEG3",)]
+
+
+def _rand_affine(rng, dim):
+    while True:
+        A = [[F(rng.randint(-6, 6), 4) for _ in range(dim)] for _ in range(dim)]
+        det = A[0][0] if dim == 1 else (A[0][0] * A[1][1] - A[0][1] * A[1][0] if dim == 2 else
+                sum(A[0][i] * (A[1][(i + 1) % 3] * A[2][(i + 2) % 3] - A[1][(i + 2) % 3] * A[2][(i + 1) % 3]) for i in range(3)))
+        if abs(det) >= F(1, 8):
+            return A, det, [F(rng.randint(-8, 8), 4) for _ in range(dim)]
+
+
+def impl_mesh_measure(ctx, E):
+    """Mesh.length/area/volume and Mesh.center of hand-made meshes with several element groups of the
+    main dimension (any dict order, lower-dimensional groups present): exact measure = sum |det A| meas(ref),
+    exact centre = measure-weighted mean of the images of the reference centroids."""
+    rng = ctx.rng
+    SH = {"SEG": "Seg", "TRI": "Tri", "QUAD": "Quad", "TETRA": "Tet", "HEXA": "Hex", "PRISM": "Prism"}
+    cases, exact = [], []
+    reps = 1 if ctx.tier == "quick" else 5
+    for combo in MIXED:
+        if any(n not in E for n in combo):
+            continue
+        for _ in range(reps):
+            groups, tot, mom, dmax = [], F(0), [F(0)] * 3, max(E[n]["dim"] for n in combo)
+            for name in combo:
+                dim, sh = E[name]["dim"], SH[name.rstrip("0123456789")]
+                maps = []
+                for _k in range(rng.randint(1, 3)):
+                    A, det, b = _rand_affine(rng, dim)
+                    maps.append({"A": [[float(x) for x in row] for row in A], "b": [float(x) for x in b]})
+                    if dim == dmax:
+                        meas = abs(det) * MEAS[sh]
+                        cref = [iref(sh, tuple(int(j == k) for j in range(dim))) / MEAS[sh] for k in range(dim)]
+                        cen = [b[k] + sum(cref[d] * A[d][k] for d in range(dim)) for k in range(dim)] + [F(0)] * (3 - dim)
+                        tot += meas
+                        mom = [m + meas * x for m, x in zip(mom, cen)]
+                groups.append({"elem": name, "maps": maps})
+            cases.append({"groups": groups})
+            exact.append({"measure": float(tot), "center": [float(m / tot) for m in mom], "scale": float(tot) + max(abs(float(m / tot)) for m in mom)})
+    rc, out, err = ctx.impl_python(os.path.join(common.VERIF, "corr", "impl_meshmeasure.py"), input=json.dumps({"cases": cases}), timeout=900)
+    if rc != 0:
+        ctx.obligation("corr:mesh-measure", False, err[-1200:])
+        ctx.violation("corr:mesh-measure-impl-crash", "implementation-side mesh measure run failed: " + ((err.strip().splitlines() or ["?"])[-1][:200]), {"stderr": err[-3000:]}, found_input=False)
+        return
+    res = json.loads(out)
+    nbad = 0
+    for c, e, r in zip(cases, exact, res):
+        label = "+".join(g["elem"] for g in c["groups"])
+        ctx.note_case("mesh-measure:" + label)
+        probs = []
+        if "raises" in r:
+            probs.append("raises " + r["raises"])
+        else:
+            tol = 1e-10 * max(1.0, e["scale"])
+            if abs(r["measure"] - e["measure"]) > tol:
+                probs.append("measure %r exact %r" % (r["measure"], e["measure"]))
+            if any(abs(a - b) > tol for a, b in zip(r["center"], e["center"])):
+                probs.append("centre %r exact %r" % (r["center"], e["center"]))
+        if probs:
+            nbad += 1
+            ctx.violation("mesh-measure:" + label, "mesh with groups %s: %s" % (label, "; ".join(probs)),
+                          {"case": c, "exact": e, "replay_py": REPLAY_MESH % dict(req=json.dumps({"cases": [c]}), exp=json.dumps(e), script=os.path.join(common.VERIF, "corr", "impl_meshmeasure.py"))}, True)
+    ctx.cov["impl_mesh_measure_cases"] = len(cases)
+    ctx.obligation("corr:Mesh.length/area/volume/center exact on multi-group straight-sided meshes", nbad == 0, "%d of %d cases differ" % (nbad, len(cases)))
+
+
 def run(ctx):
     ctx.assumptions += [
         "closed-form reference integrals of monomials (a!b!/(a+b+2)! etc., EFLib.QuadDefs.iref) are the specification of 'exact'",
@@ -394,6 +481,7 @@ def run(ctx):
             ctx.violation("proof-broken:C07_factory.v", "C07_factory.v no longer checks; diagnosis found no failing element",
                           {"obligation": "C07_factory.v", "log": r2.log[-3000:], "diag": outd[-2000:]}, found_input=False)
     impl_integration(ctx, dump, E)
+    impl_mesh_measure(ctx, E)
     # independent exact sweep (python Fractions) of what Coq decided, as cross-check of the tie
     sw = search_rules(dump)
     ctx.obligation("python exact sweep agrees with the Coq decision on the rules", bool(sw) == (not r1.ok), "sweep found %d" % len(sw))
